@@ -1,6 +1,6 @@
 (* C10 - Only well-formed tokens come out of constructors and decoders. *)
 From Coq Require Import String.
-Require Import Base Node Did Command SelParse Policy PolicyIpld Generated Envelope EnvelopeProofs Token TokenProofs SealProofs.
+Require Import Base Node Did Command SelParse Policy PolicyIpld Generated Envelope EnvelopeProofs Token TokenProofs SealProofs Args ArgsProofs.
 Local Open Scope N_scope.
 
 Theorem C10_decoded_delegation_is_well_formed : forall n t, dlg_from_payload n = Ok t ->
@@ -93,3 +93,35 @@ Example C10_schemas_nonvacuous :
   List.length dlg_schema = 9%nat /\ List.length inv_schema = 11%nat /\
   In (lit "nonce", 1, false, false) dlg_schema /\ In (lit "exp", 2, false, true) inv_schema.
 Proof. repeat split; vm_compute; auto 20. Qed.
+
+(* pkg/args.Args and pkg/meta.Meta as containers (Args.v): a value offered to Add is stored exactly, under its
+   key, after the existing entries and without touching them - or the call is refused (the key is taken; for
+   arguments, the value holds an integer beyond +-(2^53-1)); Include keeps the first value of every key; what
+   ToIPLD presents is every entry, sorted by key *)
+Theorem C10_added_value_is_stored_exactly : forall ci a k v a',
+  NoDup (map fst a) -> c_add ci a k v = Ok a' ->
+  NoDup (map fst a') /\ map_get k a' = Some v /\ (forall k', k' <> k -> map_get k' a' = map_get k' a) /\
+  map fst a' = map fst a ++ [k] /\ (ci = true -> ints_in53 v = true).
+Proof. exact add_stores_exactly. Qed.
+Print Assumptions C10_added_value_is_stored_exactly.
+
+Theorem C10_add_refuses_taken_key_and_unsafe_integers : forall a k v,
+  (has_key k a = true -> forall ci, c_add ci a k v = Err 1) /\
+  (has_key k a = false -> ints_in53 v = false -> c_add true a k v = Err 2).
+Proof. intros a k v. split; [intros H ci; apply add_rejects_duplicate; exact H|apply add_rejects_unsafe_integers]. Qed.
+Print Assumptions C10_add_refuses_taken_key_and_unsafe_integers.
+
+Theorem C10_include_first_value_wins : forall other a, NoDup (map fst a) ->
+  NoDup (map fst (c_include a other)) /\
+  (forall k, map_get k (c_include a other) = match map_get k a with Some v => Some v | None => map_get k other end).
+Proof. exact include_first_wins. Qed.
+Print Assumptions C10_include_first_value_wins.
+
+Theorem C10_to_ipld_keeps_every_entry : forall a k, NoDup (map fst a) -> map_get k (c_sorted a) = map_get k a.
+Proof. exact to_ipld_keeps_every_entry. Qed.
+Print Assumptions C10_to_ipld_keeps_every_entry.
+
+Theorem C10_invocation_arguments_are_the_first_value_per_key : forall os a a', NoDup (map fst a) -> apply_aopts a os = Ok a' ->
+  NoDup (map fst a') /\ forall k, map_get k a' = match map_get k a with Some v => Some v | None => first_get k os end.
+Proof. exact options_first_value_wins. Qed.
+Print Assumptions C10_invocation_arguments_are_the_first_value_per_key.
